@@ -162,8 +162,8 @@ func b2i(b bool) int {
 	return 0
 }
 
-//verif:entry property=C19 tier=quick bounds="Apply on an arbitrary document (not JSON at all, or an arbitrary JSON tree: arbitrary kinds, members present or absent, arbitrary strings and numbers; members old_value, txid, timestamp, offset assumed absent in the quick tier) against a materializer holding one entity; strict or not" cover="rejected,applied" forbid=panic,deadlock,race
-func harnessC19ArbitraryBytesQuick() { c19Arbitrary(vDocWithout("data", "old_value,txid,timestamp,offset")) }
+//verif:entry property=C19 tier=quick bounds="Apply on an arbitrary document (not JSON at all, or an arbitrary JSON tree: arbitrary kinds, members present or absent, arbitrary strings and numbers; members old_value, txid, timestamp assumed absent in the quick tier) against a materializer holding one entity; strict or not" cover="rejected,applied" forbid=panic,deadlock,race
+func harnessC19ArbitraryBytesQuick() { c19Arbitrary(vDocWithout("data", "old_value,txid,timestamp")) }
 
 //verif:entry property=C19 tier=thorough bounds="Apply on an arbitrary document (not JSON at all, or an arbitrary JSON tree: arbitrary kinds, every protocol member present or absent, arbitrary strings and numbers) against a materializer holding one entity; strict or not" cover="rejected,applied" forbid=panic,deadlock,race
 func harnessC19ArbitraryBytes() { c19Arbitrary(vDoc("data")) }
@@ -196,6 +196,55 @@ func c19Arbitrary(data []byte) {
 		vCover("rejected")
 	} else {
 		vAssert(m.LastOffset() == "2", "applied-advances-last-offset")
+		// state may change only because of a well-formed message: a reset control
+		// message whose headers decode cleanly, or a change message for the registered type
+		after, afterOK := coll.Get(probe)
+		if afterOK != beforeOK || after != before || len(coll.All()) != sizeBefore {
+			var raw struct {
+				Headers json.RawMessage `json:"headers"`
+			}
+			wellFormedReset := false
+			if json.Unmarshal(data, &raw) == nil {
+				var ch ControlHeaders
+				if json.Unmarshal(raw.Headers, &ch) == nil && ch.Control == ControlReset {
+					wellFormedReset = true
+				}
+			}
+			var cm ChangeMessage
+			wellFormedChange := json.Unmarshal(data, &cm) == nil && cm.Type == EntityType(entA{})
+			vAssert(wellFormedReset || wellFormedChange, "state-changes-only-for-well-formed-messages")
+		}
 		vCover("applied")
 	}
+}
+
+type entMap map[string]int
+
+//verif:entry property=C19 tier=both bounds="entities whose JSON encoding is null (nil pointer, nil map) through Insert/Update -> publish -> store -> replay -> Apply" cover="null-value"
+func harnessC19NullValue() {
+	bus, _ := newBus()
+	update := vBool()
+	var m1, m2 *ChangeMessage
+	var e1, e2 error
+	if update {
+		m1, e1 = Update("p", (*entA)(nil))
+		m2, e2 = Update("m", entMap(nil))
+	} else {
+		m1, e1 = Insert("p", (*entA)(nil))
+		m2, e2 = Insert("m", entMap(nil))
+	}
+	vAssert(e1 == nil && e2 == nil && m1 != nil && m2 != nil, "helper-ok")
+	eventbus.Publish(bus, *m1)
+	eventbus.Publish(bus, *m2)
+	m := NewMaterializer()
+	cp := NewTypedCollection[*entA](NewMemoryStore[*entA]())
+	cm := NewTypedCollection[entMap](NewMemoryStore[entMap]())
+	RegisterCollection(m, cp)
+	RegisterCollection(m, cm)
+	vAssert(m.Replay(bg, bus, eventbus.OffsetOldest) == nil, "replay-ok")
+	vp, okp := cp.Get("p")
+	vm, okm := cm.Get("m")
+	vAssert(okp && vp == nil, "null-pointer-entity-materialized")
+	vAssert(okm && vm == nil, "null-map-entity-materialized")
+	vCover("null-value")
 }
